@@ -280,6 +280,26 @@ def check_reach_helpers(run, rule='R8h'):
                 run.violation(rule, '%s.%s' % (cn, op), 'vectorised operator', 'operator is not defined by the library '
                               '(inherited list semantics)', f=None)
                 continue
+            # every value returned by an operator that has no non-helper route (comparison, + - /) comes from the helper:
+            # a constant or other shortcut result is ONE value whatever the lengths of the operands
+            if op in ('__eq__', '__ne__', '__add__', '__sub__', '__truediv__'):
+                fi = FuncInfo.of(mem)
+                for r in own_walk(mem.node):
+                    if not isinstance(r, ast.Return) or r.value is None:
+                        continue
+                    e = canon(fi, r.value)
+                    if isinstance(e, ast.Name) and e.id == 'NotImplemented':
+                        continue
+                    has_helper = any(isinstance(y, ast.Call) and isinstance(y.func, ast.Attribute) and y.func.attr in ('_op2', 'binop')
+                                     for y in ast.walk(e))
+                    construct = '%s return %s (for %s)' % (op, src(r.value, 40), cn)
+                    if has_helper:
+                        run.holds(rule, mem.key, construct, 'the returned value is the helper result', f=mem, node=r)
+                    elif isinstance(e, ast.Constant):
+                        run.violation(rule, mem.key, construct, 'a constant is returned without going through the broadcasting helper: for operands '
+                                      'holding M values the result is one value instead of M element-wise results', f=mem, node=r)
+                    else:
+                        run.undecided(rule, mem.key, construct, 'value not produced by the broadcasting helper', f=mem, node=r)
             cl = closure([mem], depth=3, prog=prog)
             if h in cl:
                 run.holds(rule, mem.key, 'reaches ' + h.name + ' (for %s)' % cn, 'vectorised operator is implemented through the '
